@@ -32,6 +32,7 @@ func runC10(r *an.Run) {
 	c10FakePackage(r)
 	c10Lookup(r)
 	noPackageLevelState(r, "R6-lookup-by-unquoted-path")
+	c10GuardsReachMatcher(r)
 }
 
 func c10GuardOrder(r *an.Run) {
